@@ -401,6 +401,7 @@ func CheckK(prop string, witnesses []string) func(r *Report) {
 		if prop == "C01" {
 			c01Large(r)
 			c01AWS(r)
+			c01Suffix(r)
 		}
 	}
 }
